@@ -406,6 +406,10 @@ func (priv *DSAPrivateKey) Sign(rand io.Reader, hashed []byte) ([]byte, error) {
 	if err == nil {
 		rBytes := r.Bytes()
 		sBytes := s.Bytes()
+		if len(rBytes) > 20 || len(sBytes) > 20 {
+			// OTR signatures have two 160 bit fields: keys with a larger q can't be used
+			return nil, newOtrError("DSA key not usable: the signature does not fit in 320 bits")
+		}
 
 		out := make([]byte, 40)
 		copy(out[20-len(rBytes):], rBytes)
